@@ -166,6 +166,15 @@ theorem sweeps_total {cfg : Cfg} (hc : cfg.oldPanicOnEmpty = false) (cids : List
     simp only [sweeps, hc, Bool.false_and, Bool.false_eq_true, if_false]
     exact sweeps_total hc cids bs (sweep b asg)
 
+theorem sweeps_ne_unsound (cfg : Cfg) (cids : List Nat) :
+    ∀ (bs : List (Nat → Option Nat)) (asg : List Nat), sweeps cfg cids bs asg ≠ .panicUnsound
+  | [], asg => by simp [sweeps]
+  | b :: bs, asg => by
+    simp only [sweeps]
+    split
+    · simp
+    · exact sweeps_ne_unsound cfg cids bs _
+
 theorem best_map_mem {cids : List Nat} (bs : List (Best cids)) :
     ∀ b ∈ bs.map (·.f), ∀ p c, b p = some c → c ∈ cids := by
   intro b hb p c h
